@@ -313,9 +313,12 @@ class YAMLSpecification(Specification):
         """
         try:
             for step in self.study:
+                # A step without a name (or one that is not a mapping) is
+                # reported by the schema validation below.
+                name = step.get("name") if isinstance(step, dict) else None
                 # validate step against json schema
                 YAMLSpecification.validate_schema(
-                    "study step '{}'".format(step["name"]),
+                    "study step '{}'".format(name),
                     step,
                     schema,
                 )
